@@ -212,6 +212,12 @@ def prepare_ops(spec, dev, tmp):
                     with open(os.path.join(d, name), 'wb') as f:
                         f.write(fd)
                 a['local'] = d
+                # a working directory that is not the pushed one but holds DIRECTORIES named like the pushed files (and a file named like the directory)
+                decoy = os.path.join(tmp, 'decoy%d' % i)
+                os.makedirs(decoy)
+                for name in a['files']:
+                    os.makedirs(os.path.join(decoy, name))
+                a['decoy'] = decoy
                 a['data'] = b''.join(a['files'].values())
                 dev.shell_scripts[('shell:mkdir ' + a['dpath']).encode('utf8')] = []
         plans[i] = op.get('plan')
@@ -272,13 +278,15 @@ def run(spec, mode='sync', rec=None, chooser=None, keep_session=False, **core_kw
             lg.removeHandler(_FORMAT_ALL)
             lg.propagate = old_prop
     seed = spec.get('seed', 0)
-    if spec.get('ambient', True) and ('rtype' not in spec or 'debug_log' not in spec):
+    if spec.get('ambient', True) and ('rtype' not in spec or 'debug_log' not in spec or 'boundary' not in spec):
         # ambient variation of the environment, derived from the seed unless the spec pins it: the container type bulk_read hands out
         # and whether the application runs the library's loggers at DEBUG.  Neither may change any observable result.
         h = (seed * 2654435761 + 97 * len(spec.get('ops', []))) & 0xFFFFFFFF
         amb = dict(spec, ambient=False)
         amb.setdefault('rtype', [None, 'bytearray', 'memoryview', 'array'][(h >> 5) % 4])
         amb.setdefault('debug_log', (h >> 9) % 3 == 0)
+        if spec.get('frag', 'whole') == 'whole' and not spec.get('mangle'):
+            amb.setdefault('boundary', 'usb' if (h >> 13) % 4 == 0 else None)      # a transport that keeps transfer boundaries, as USB bulk does
         return run(amb, mode, rec, chooser, keep_session, **core_kw)
     rr = RunResult()
     dev = build_device(spec, rec, chooser)
@@ -291,6 +299,8 @@ def run(spec, mode='sync', rec=None, chooser=None, keep_session=False, **core_kw
             kw['frag'] = frag_fn(spec['frag'], seed)
         if 'tick' not in kw and spec.get('tick'):
             kw['tick'] = spec['tick']          # every transport call takes this much (virtual) time
+        if 'boundary' not in kw and spec.get('boundary'):
+            kw['boundary'] = spec['boundary']
         if 'rtype' not in kw and spec.get('rtype'):
             kw['rtype'] = spec['rtype']
         if 'wcap' not in kw and spec.get('wcap') is not None:
@@ -681,6 +691,8 @@ def run_op(s, op, a, tmp, i, rr):
         cwd0 = os.getcwd()
         if op.get('cwd') == 'inside':
             os.chdir(a['local'])
+        elif op.get('cwd') == 'decoy':
+            os.chdir(a['decoy'])
         elif op.get('cwd') == 'elsewhere':
             os.chdir('/')
         try:
